@@ -1627,6 +1627,32 @@ def fn_c_circ(items):
         cl(acc, 'CliffordCircuit.copy', 'forward_map-set', 'circuit(%s) with forward_map/backward_map set .copy() maps' % pn,
            lambda S: (lambda c: [c.forward_map, c.backward_map])(with_maps(S)))
         if len(letters) >= 2:
+            # histories on one circuit object / between a compiled circuit and its copy (both packages must agree):
+            # compile -> extend -> compile, and compile -> copy -> extend the copy -> compile the copy -> compile the ORIGINAL again
+            for cut in (range(1, len(letters)) if len(letters) <= 3 else (len(letters) - 1,)):
+                def ext_hist(S, cut=cut):
+                    c = mk_circ(S, N, letters[:cut])
+                    c.compile()
+                    for l in letters[cut:]:
+                        c.take(mk_gate(S, l))
+                    c.compile()
+                    return c
+                both_dirs('CliffordCircuit.history', pk + ',compile-extend-compile', 'circuit(%s).compile(), +%s, compile()' % (
+                    '+'.join(l[0] for l in letters[:cut]), '+'.join(l[0] for l in letters[cut:])), lambda S, cut=cut: pre(lambda: ext_hist(S, cut)))
+
+                def copy_hist(S, cut=cut):
+                    c1 = mk_circ(S, N, letters[:cut])
+                    c1.compile()
+                    c2 = c1.copy()
+                    for l in letters[cut:]:
+                        c2.take(mk_gate(S, l))
+                    c2.compile()
+                    c1.compile()
+                    return c1, c2
+                both_dirs('CliffordCircuit.history', pk + ',original-after-copy-extended', 'c1=circuit(%s).compile(); c2=c1.copy()+%s; c2.compile(); c1.compile(); c1' % (
+                    '+'.join(l[0] for l in letters[:cut]), '+'.join(l[0] for l in letters[cut:])), lambda S, cut=cut: pre(lambda: copy_hist(S, cut))[0])
+                both_dirs('CliffordCircuit.history', pk + ',extended-copy-after-original-recompiled', 'c1=circuit(%s).compile(); c2=c1.copy()+%s; c2.compile(); c1.compile(); c2' % (
+                    '+'.join(l[0] for l in letters[:cut]), '+'.join(l[0] for l in letters[cut:])), lambda S, cut=cut: pre(lambda: copy_hist(S, cut))[1])
             for cut in range(1, len(letters)):
                 both_dirs('CliffordCircuit.compose', pk, 'circuit(%s).compose(circuit(%s))' % ('+'.join(l[0] for l in letters[:cut]), '+'.join(l[0] for l in letters[cut:])),
                           lambda S: mk_circ(S, N, letters[:cut]).compose(mk_circ(S, N, letters[cut:])))
